@@ -109,8 +109,15 @@ def specPartial (mods : List Module) (param : String) : List Module :=
 /-- "a default run executes every check except the OS-command-injection check" -/
 def specDefault (mods : List Module) : List Module := mods.filter (fun m => m.name != "CWE78")
 
-/-- "a run on a Linux kernel module executes exactly the kernel-module subset" -/
-def specLkm (mods : List Module) (lkm : List String) : List Module := mods.filter (fun m => lkm.contains m.name)
+/-- The acceptance tests of the repository (`test/src/lib.rs`, `LKM_CWE`) run these checks on kernel-module
+samples and expect their warnings: an independent statement of checks the kernel-module subset must contain. -/
+def lkmAcceptance : List String := Gen.Modules.lkmAcceptance
+
+/-- "a run on a Linux kernel module executes exactly the kernel-module subset" — the subset named by the
+code's list, which must contain the checks of the acceptance list (so the specification does not shrink
+when the code's list loses one of them) -/
+def specLkm (mods : List Module) (lkm : List String) : List Module :=
+  mods.filter (fun m => lkm.contains m.name || lkmAcceptance.contains m.name)
 
 def specSelect (mods : List Module) (lkm : List String) (partialArg : Option String) (isLkm : Bool) : List Module :=
   match partialArg with
